@@ -4,7 +4,7 @@ import json, os
 ROOT = os.path.dirname(os.path.dirname(os.path.abspath(__file__)))
 LEVEL_NOTE = ('Trusted base: scalar model M-real (exact real arithmetic for the crate\'s generic Float; no rounding/NaN/inf), '
               'axioms for exp/cos/sin/ln/log2/tanh/sqrt, vstd + assume_specification specs of VecDeque/Vec/Option, '
-              'extraction rules M1-M5, R1-R13, F1, L1 (bodies otherwise byte-identical to /repo; validated on every run, within a bound, by executing the '
+              'extraction rules M1-M6, R1-R15, F1, L1, P1 (bodies otherwise byte-identical to /repo; validated on every run, within a bound, by executing the '
               'generated Verus text against the real crate bit for bit), axioms re-checked numerically on every run, assumed std contracts '
               'checked by Kani up to 3 elements in the thorough tier. Full list in the evidence file.')
 CHECKS = {
